@@ -49,7 +49,7 @@ ANCHORS = [
     "txtorcon.torstate:TorState._bootstrap",
 ]
 FLOORS = {
-    "quick": {"evaluations": 3000, "lookups_compared": 40000, "listener_calls_seen": 4000,
+    "quick": {"evaluations": 2500, "lookups_compared": 35000, "listener_calls_seen": 4000,
               "expiries_in_model": 3000, "state_route_events": 300, "bootstrap_mappings": 100,
               "reach:txtorcon.addrmap:Addr.update": 5000, "reach:txtorcon.addrmap:Addr._expire": 1500,
               "reach:txtorcon.torstate:TorState._addr_map": 300},
@@ -350,6 +350,9 @@ def run_case(case, rec):
                 line = M.render(arg, epoch)
                 trans = model.event(arg)
                 rec.count("events_fed")
+                rec.seen("line_forms", "%s%s%s%s" % (arg["form"], "+error" if arg["addr"] == M.ERROR else "",
+                                                      "+streamid" if arg.get("streamid") is not None else "",
+                                                      "+tor-in-other-zone" if arg.get("tzoff") else ""))
                 rec.seen("transitions", "%s->%s %s" % (
                     "live" if trans[0] else "absent", "live" if trans[1] else "absent",
                     "error" if arg["addr"] == M.ERROR else ("never" if arg["exp"] is None else
@@ -542,12 +545,12 @@ def plan(tier, seed):
     specs = []
     if tier == "quick":
         for _ in range(12):
-            specs.append({"route": "addrmap", "n": 2500})
+            specs.append({"route": "addrmap", "n": 2000})
         for _ in range(4):
-            specs.append({"route": "state", "n": 450})
+            specs.append({"route": "state", "n": 400})
     else:
         for _ in range(32):
-            specs.append({"route": "addrmap", "n": 30000, "timeout_s": 3000})
+            specs.append({"route": "addrmap", "n": 50000, "timeout_s": 3000})
         for _ in range(16):
-            specs.append({"route": "state", "n": 4000, "timeout_s": 3000})
+            specs.append({"route": "state", "n": 6000, "timeout_s": 3000})
     return specs
